@@ -552,60 +552,275 @@ func c10Quote(c *Ctx, kindFmt map[string]*ssa.Function) {
 		}
 		c.r.check(wrapped, rule, "formatter: quote wrapping", "the escaped value is wrapped in double quotes", "the escaped value is not wrapped as `\"%s\"`", c.w.ipos(enc.call))
 	}
-	// comparison formats
+	// what the comparison formatter writes, as a symbolic token sequence per path (constants with blanks removed,
+	// <col>, <qval> = value through the quoting function, <num> = decimal placeholder number)
 	if f := kindFmt["Equal"]; f != nil {
-		okFmt := true
-		var fmts []string
-		quoted := false
-		allInstrs(f, func(i ssa.Instruction) {
-			call, ok := i.(*ssa.Call)
-			if !ok {
-				return
-			}
-			if calleeName(&call.Call) == "fmt.Fprintf" || calleeName(&call.Call) == "fmt.Sprintf" {
-				for _, a := range call.Call.Args {
-					if s, ok := constString(a); ok {
-						fmts = append(fmts, s)
-						t := strings.ReplaceAll(s, " ", "")
-						if t != "%s=%s" && t != "%s=$%d" {
-							okFmt = false
-						}
-					}
+		var encFn *ssa.Function
+		if enc != nil {
+			encFn = enc.fn
+		}
+		seqs, why := outputSeqs(c, f, encFn)
+		if why != "" {
+			c.r.undecided(rule, safeFname(f)+": output", "the text written by the comparison formatter cannot be followed: "+why, c.w.pos(f.Pos()))
+		} else {
+			want := map[string]bool{"<Column>=<q:Value>": true, "<Column>=$<n:Placeholder>": true}
+			got := map[string]bool{}
+			bad := ""
+			for _, sq := range seqs {
+				got[sq] = true
+				if !want[sq] {
+					bad = sq
 				}
 			}
-			if enc != nil && calleeFunc(&call.Call) == enc.fn {
-				quoted = true
-			}
-		})
-		c.r.check(okFmt && len(fmts) >= 2, rule, safeFname(f)+": formats", fmt.Sprintf("formats %q", fmts), fmt.Sprintf("comparison formats %q are not `%%s = %%s` / `%%s = $%%d`", fmts), c.w.pos(f.Pos()))
-		c.r.check(quoted, rule, safeFname(f)+": value quoting", "the value is passed through the quoting function", "a literal value is written without going through the quoting function", c.w.pos(f.Pos()))
+			c.r.check(bad == "" && len(got) == 2, rule, safeFname(f)+": output", "writes `column = \"value\"` (value through the quoting function) or `column = $n`",
+				fmt.Sprintf("the comparison formatter writes %q on some path (expected column, '=', then either the value through the quoting function or '$' and the decimal placeholder number): the text does not parse back to the same comparison", bad), c.w.pos(f.Pos()))
+		}
 	} else {
 		c.r.undecided(rule, "formatter of Equal", "not found")
 	}
-	// group-by list
-	okGB := false
-	allInstrs(c.a.QueryToString, func(i ssa.Instruction) {
-		call, ok := i.(*ssa.Call)
-		if !ok || calleeName(&call.Call) != "strings.Join" {
-			return
+	// group-by list: on the path that writes it, ';' followed by the columns joined by ','
+	{
+		seqs, why := outputSeqs(c, c.a.QueryToString, nil)
+		if why != "" {
+			c.r.undecided(rule, safeFname(c.a.QueryToString)+": group-by", "the text written for the group-by list cannot be followed: "+why, c.w.pos(c.a.QueryToString.Pos()))
+		} else {
+			okGB := false
+			bad := ""
+			for _, sq := range seqs {
+				if strings.Contains(sq, "<join") {
+					if strings.HasSuffix(sq, ";<join,:GroupBy>") {
+						okGB = true
+					} else {
+						bad = sq
+					}
+				}
+			}
+			c.r.check(okGB && bad == "", rule, safeFname(c.a.QueryToString)+": group-by", "`;` followed by the group-by columns joined by ','",
+				"the group-by list is not written as ';' followed by the columns joined by ',' ("+bad+")", c.w.pos(c.a.QueryToString.Pos()))
 		}
-		if sep, ok := constString(call.Call.Args[1]); ok && strings.TrimSpace(sep) == "," {
-			if f := path(call.Call.Args[0]).lastField(); f != nil && f.Name() == "GroupBy" {
-				okGB = true
+	}
+}
+
+// outputSeqs enumerates the paths of a (loop-free) formatting function and renders what each path writes to its
+// builder as a string of symbolic tokens. quoteFn is the quoting helper (its result is rendered <q:Field>).
+func outputSeqs(c *Ctx, fn *ssa.Function, quoteFn *ssa.Function) ([]string, string) {
+	var out []string
+	why := ""
+	var tok func(v ssa.Value, phis map[*ssa.Phi]ssa.Value, verb string) string
+	tok = func(v ssa.Value, phis map[*ssa.Phi]ssa.Value, verb string) string {
+		for n := 0; n < 8; n++ {
+			if phi, ok := v.(*ssa.Phi); ok {
+				if r, ok := phis[phi]; ok {
+					v = r
+					continue
+				}
+			}
+			break
+		}
+		switch x := v.(type) {
+		case *ssa.Const:
+			if sv, ok := constString(x); ok {
+				return strings.ReplaceAll(sv, " ", "")
+			}
+			if k, ok := constInt(x); ok {
+				return string(rune(k))
+			}
+		case *ssa.MakeInterface:
+			return tok(x.X, phis, verb)
+		case *ssa.Convert:
+			return tok(x.X, phis, verb)
+		case *ssa.ChangeType:
+			return tok(x.X, phis, verb)
+		case *ssa.BinOp:
+			if x.Op == token.ADD {
+				return tok(x.X, phis, "") + tok(x.Y, phis, "")
+			}
+		case *ssa.UnOp:
+			if f := srcField(x); f != nil {
+				switch verb {
+				case "", "s", "v":
+					if b, ok := f.Type().Underlying().(*types.Basic); ok && b.Info()&types.IsInteger != 0 {
+						return "<n:" + f.Name() + ">"
+					}
+					return "<" + f.Name() + ">"
+				case "d":
+					return "<n:" + f.Name() + ">"
+				default:
+					return "<%" + verb + ":" + f.Name() + ">"
+				}
+			}
+		case *ssa.Call:
+			name := calleeName(&x.Call)
+			if g := calleeFunc(&x.Call); g != nil && quoteFn != nil && g == quoteFn {
+				if f := srcField(x.Call.Args[0]); f != nil {
+					if verb == "" || verb == "s" || verb == "v" {
+						return "<q:" + f.Name() + ">"
+					}
+					return "<%" + verb + "q:" + f.Name() + ">"
+				}
+			}
+			switch name {
+			case "strconv.Itoa", "strconv.FormatInt", "strconv.FormatUint":
+				if f := srcField(peelConv(x.Call.Args[0])); f != nil {
+					return "<n:" + f.Name() + ">"
+				}
+			case "strings.Join":
+				if f := path(x.Call.Args[0]).lastField(); f != nil {
+					if sep, ok := constString(x.Call.Args[1]); ok {
+						return "<join" + strings.TrimSpace(sep) + ":" + f.Name() + ">"
+					}
+				}
+			case "fmt.Sprintf":
+				return fmtTokens(x.Call.Args, 0, func(v ssa.Value, verb string) string { return tok(v, phis, verb) })
+			case "fmt.Sprint":
+				return fmtTokens(x.Call.Args, -1, func(v ssa.Value, verb string) string { return tok(v, phis, verb) })
 			}
 		}
-	})
-	semi := false
-	allInstrs(c.a.QueryToString, func(i ssa.Instruction) {
-		if call, ok := i.(*ssa.Call); ok {
-			for _, a := range call.Call.Args {
-				if s, ok := constString(a); ok && strings.Contains(s, ";") && strings.Contains(s, "%s") {
-					semi = true
+		return "<?>"
+	}
+	steps := 0
+	var walk func(b, prev *ssa.BasicBlock, phis map[*ssa.Phi]ssa.Value, acc string, visits map[*ssa.BasicBlock]int)
+	walk = func(b, prev *ssa.BasicBlock, phis map[*ssa.Phi]ssa.Value, acc string, visits map[*ssa.BasicBlock]int) {
+		if why != "" {
+			return
+		}
+		steps++
+		if steps > 5000 {
+			why = "too many paths"
+			return
+		}
+		if visits[b] >= 1 {
+			return // loops are not followed (the operator formatters are checked by C10.parens)
+		}
+		v2 := map[*ssa.BasicBlock]int{}
+		for k, n := range visits {
+			v2[k] = n
+		}
+		v2[b]++
+		p2 := map[*ssa.Phi]ssa.Value{}
+		for k, v := range phis {
+			p2[k] = v
+		}
+		if prev != nil {
+			for _, ins := range b.Instrs {
+				phi, ok := ins.(*ssa.Phi)
+				if !ok {
+					break
+				}
+				for k, p := range b.Preds {
+					if p == prev {
+						p2[phi] = phi.Edges[k]
+					}
 				}
 			}
 		}
-	})
-	c.r.check(okGB && semi, rule, safeFname(c.a.QueryToString)+": group-by", "`; ` followed by the group-by columns joined by ','", "the group-by list is not written as ';' followed by the columns joined by ','", c.w.pos(c.a.QueryToString.Pos()))
+		for _, ins := range b.Instrs {
+			switch x := ins.(type) {
+			case *ssa.Call:
+				name := calleeName(&x.Call)
+				switch name {
+				case "(*strings.Builder).WriteString", "io.WriteString", "(*bytes.Buffer).WriteString":
+					acc += tok(x.Call.Args[len(x.Call.Args)-1], p2, "")
+				case "(*strings.Builder).WriteByte", "(*strings.Builder).WriteRune":
+					acc += tok(x.Call.Args[1], p2, "")
+				case "fmt.Fprintf":
+					acc += fmtTokens(x.Call.Args[1:], 0, func(v ssa.Value, verb string) string { return tok(v, p2, verb) })
+				case "fmt.Fprint":
+					acc += fmtTokens(x.Call.Args[1:], -1, func(v ssa.Value, verb string) string { return tok(v, p2, verb) })
+				}
+			case *ssa.If:
+				walk(b.Succs[0], b, p2, acc, v2)
+				walk(b.Succs[1], b, p2, acc, v2)
+				return
+			case *ssa.Jump:
+				walk(b.Succs[0], b, p2, acc, v2)
+				return
+			case *ssa.Return:
+				out = append(out, acc)
+				return
+			case *ssa.Panic:
+				return
+			}
+		}
+	}
+	walk(fn.Blocks[0], nil, map[*ssa.Phi]ssa.Value{}, "", map[*ssa.BasicBlock]int{})
+	return out, why
+}
+
+// fmtTokens renders fmt-style arguments: args[fmtIdx] is the format (fmtIdx < 0: Sprint-style, no format), followed by
+// the variadic slice built by the compiler.
+func fmtTokens(args []ssa.Value, fmtIdx int, tok func(ssa.Value, string) string) string {
+	var elems []ssa.Value
+	if len(args) > 0 {
+		last := args[len(args)-1]
+		if sl, ok := last.(*ssa.Slice); ok {
+			if al, ok := sl.X.(*ssa.Alloc); ok {
+				byIdx := map[int64]ssa.Value{}
+				max := int64(-1)
+				for _, r := range referrers(al) {
+					if ia, ok := r.(*ssa.IndexAddr); ok {
+						k, _ := constInt(ia.Index)
+						for _, rr := range referrers(ia) {
+							if st, ok := rr.(*ssa.Store); ok {
+								byIdx[k] = st.Val
+								if k > max {
+									max = k
+								}
+							}
+						}
+					}
+				}
+				for k := int64(0); k <= max; k++ {
+					elems = append(elems, byIdx[k])
+				}
+			}
+		}
+	}
+	if fmtIdx < 0 {
+		outS := ""
+		for _, e := range elems {
+			outS += tok(e, "")
+		}
+		return outS
+	}
+	format, ok := constString(args[fmtIdx])
+	if !ok {
+		return "<non-constant format>"
+	}
+	outS := ""
+	ai := 0
+	for i := 0; i < len(format); i++ {
+		ch := format[i]
+		if ch != '%' {
+			if ch != ' ' {
+				outS += string(ch)
+			}
+			continue
+		}
+		i++
+		if i >= len(format) {
+			break
+		}
+		if format[i] == '%' {
+			outS += "%"
+			continue
+		}
+		// flags / width are not expected in these formats: take the verb letter
+		for i < len(format) && strings.ContainsRune("+-# 0123456789.", rune(format[i])) {
+			i++
+		}
+		verb := ""
+		if i < len(format) {
+			verb = string(format[i])
+		}
+		if ai < len(elems) && elems[ai] != nil {
+			outS += tok(elems[ai], verb)
+		} else {
+			outS += "<missing>"
+		}
+		ai++
+	}
+	return outS
 }
 
 // unquoteRule: the parser's string decoder removes exactly one character at each end of the token before undoing the
